@@ -424,7 +424,8 @@ def verify_main(spec):
                 sk = crypto.key_from_private_bin(_unhx(skh))
                 ps = mgr.get_pseudonym(sk)
                 toks = list(ps.tree.elements.values())
-                r = {"tokens": len(toks),
+                r = {"pk": _cx(sk.pub().key_to_bin()), "credentials_loaded": len(ps.credentials),
+                     "tokens": len(toks),
                      "tokens_verify": [bool(ps.tree.verify(t)) for t in toks],
                      "credentials": []}
                 for cred in ps.get_credentials():
@@ -892,12 +893,50 @@ def oracle(ctx, exp: Experiment, r) -> bool:
                 if want != got:
                     fail(f"IdentityDatabase.get_{aname}_for:differs-from-table",
                          f"get_{aname}_for returns {len(got)} objects that differ from the {len(want)} stored rows")
+    # (3b) the objects handed to the insert calls read back as the same objects (not only the same bound values)
+    if exp.kind in ("identity", "wallet"):
+        flat = [op for ops in exp.ops_phases for op in ops if op["op"] in ("tok", "md", "att", "watt")]
+        objs = {}          # (api name, owner, model key) -> list of (call id, expected API tuple) in call order
+        for op, cid in zip(flat, tr.order):
+            if op["op"] == "tok":
+                content = _cx(_unhx(op["content"])) if op.get("content") is not None else None
+                objs.setdefault(("tokens", op["pk"], (op["prev"], op["ch"])), []).append(
+                    (cid, [op["prev"], op["sig"], op["ch"], content]))
+            elif op["op"] == "md":
+                objs.setdefault(("metadata", op["pk"], op["tp"]), []).append(
+                    (cid, [op["tp"], op["sig"], _cx(_unhx(op["json"]))]))
+            elif op["op"] == "att":
+                objs.setdefault(("attestations", op["pk"], op["mp"]), []).append((cid, [op["mp"], op["sig"]]))
+            else:
+                objs.setdefault(("by_hash", op["hash"], None), []).append((cid, [_cx(_unhx(op["blob"]))]))
+        for (aname, owner, _), lst in objs.items():
+            conf = [i for i, (cid, _) in enumerate(lst) if cid in tr.confirmed]
+            if not conf:
+                continue
+            if aname == "by_hash":
+                got_list = [[x] for x in (api.get("by_hash") or {}).get(owner, [])] if owner in exp.hashes else None
+            else:
+                got_list = (api.get(aname) or {}).get(owner) if owner in exp.pks else None
+            if got_list is None:
+                continue
+            cands = [repr(t) for _, t in lst[:conf[0] + 1]]
+            if not any(repr(g) in cands for g in got_list):
+                name = tr.calls[lst[conf[0]][0]]["name"]
+                fail(f"{name}:acked-object-reads-back-different",
+                     f"the object given to {name} call #{lst[conf[0]][0]} (returned before the kill) is not among the "
+                     f"objects the API returns after reopen")
     # (4) the pseudonym rebuilt from the store verifies
     if exp.kind == "manager":
         if "rebuild_error" in dump:
             fail("PseudonymManager.__init__:rebuild-raises", f"rebuilding the pseudonym raised {dump['rebuild_error']}")
         for skh, rr in (dump.get("rebuild") or {}).items():
             ctx.count("rebuilt_tokens:%d" % min(rr["tokens"], 12))
+            n_tok = sum(1 for kk, d in present.items() if kk[0] == "Tokens" and d.get("public_key") == rr.get("pk"))
+            n_md = sum(1 for kk, d in present.items() if kk[0] == "Metadata" and d.get("public_key") == rr.get("pk"))
+            if rr["tokens"] != n_tok or len(rr["credentials"]) != n_md or rr.get("credentials_loaded") != n_md:
+                fail("PseudonymManager.__init__:rebuilt-pseudonym-incomplete",
+                     f"the rebuilt pseudonym has {rr['tokens']} tokens / {len(rr['credentials'])} credentials, "
+                     f"the store holds {n_tok} / {n_md}")
             if not all(rr["tokens_verify"]):
                 fail("PseudonymManager.__init__:rebuilt-token-does-not-verify",
                      f"{rr['tokens_verify'].count(False)} of {rr['tokens']} reloaded tokens fail TokenTree.verify")
@@ -1266,7 +1305,7 @@ def run(ctx):
             if exp.label in ("scripted-identity", "scripted-wallet", "scripted-blocks"):
                 fsize_runs(runner, exp, probe, rng, ctx.scale(12, 80))
         # generated workloads
-        n_gen = ctx.scale(24, 120)
+        n_gen = ctx.scale(36, 260)
         for i in range(n_gen):
             kind = rng.choice(["identity", "identity", "wallet", "manager"])
             n_ops = rng.choice([3, 6, 10, 16, 24])
@@ -1290,7 +1329,7 @@ def run(ctx):
             if i % 3 == 0:
                 fsize_runs(runner, exp, probe, rng, ctx.scale(4, 12))
             if i % 4 == 1:
-                timed_runs(runner, exp, rng, ctx.scale(3, 10), 0.004 * max(1, len(ops)) / 4)
+                timed_runs(runner, exp, rng, ctx.scale(6, 12), 0.004 * max(1, len(ops)) / 4)
         ctx.extra["crash_runs"] = runner.n
     finally:
         runner.close()
